@@ -121,6 +121,11 @@ type c11Req struct {
 	Hold2  int     `json:"hold2,omitempty"`    // gates the second park point parks at (modes pipe, tc: post filter / backend call)
 	WaitUs int64   `json:"wait_us,omitempty"`  // virtual time the request spends parked (modes pipe, tc)
 	Lookup bool    `json:"lookup,omitempty"`   // mode tc: a bare Namespace.GetHandler(name) instead of an HTTP request
+	// mode pipe, Proxy variants 6/7 (resilience observable): the scripted backend fails
+	// the first FailN attempts made for THIS request: "conn" connection error, "code"
+	// status 503, "slow" answers after 2 h of virtual time (a pool timeout of 1 h fires)
+	FailN    int    `json:"fail_n,omitempty"`
+	FailKind string `json:"fail_kind,omitempty"`
 }
 
 type c11Client struct {
